@@ -42,6 +42,26 @@ package core
 //     a parent is credited min(Request(child), Max(child)) per dimension;
 //     non-preemptible request/used are plain subtree sums (never max-limited);
 //   - root.Request = sum of the max-limited requests of its children including system and default.
+//
+// Signatures. Every mismatch between a reported figure and the recomputation is a violation
+// "C01/<figure>/mismatch" that ends the case, except two that get a narrow signature because their
+// cause is established (see the report of this harness and /verif/out/proposed-fixes/C01-*.diff):
+//
+//   - C01/request/old-ancestor-after-detaching-max-limited-child: request/child-request of an OLD
+//     ancestor of group x is too SMALL right after x was re-parented or deleted while x's request
+//     exceeded x's max (deleteQuotaNoLock takes the un-limited request back from a parent that was
+//     credited the max-limited one; the clamp at zero hides the sign);
+//   - C01/migrate/pod-updated-since-cached: a figure on the path of a MigratePod whose pod object
+//     (read back from the pod cache, as the plugin does) is older than the last update of the pod
+//     (OnPodUpdate books the new requests but leaves the add-time object in the cache).
+//
+// The classification only selects the signature, never the verdict. In the sequential unit it is
+// exact (facts of the single operation just executed). In the concurrent unit the instant of a
+// quota operation relative to the pod events is unknown, so "x was max-limited" is replaced by
+// "x may have been" (largest requests the pods of x's subtree had during the round > x's max) and
+// the deficit is followed through later re-parents of the same round. Violations with these two
+// signatures are reported without ending the case; the drifted manager is then replaced by a fresh
+// one fed the surviving objects (heal) so that the rest of the history stays monitored.
 
 import (
 	"fmt"
@@ -317,8 +337,8 @@ func (m *c01Model) shape() string {
 
 type c01Agg struct {
 	selfReq, selfUsed, selfNPReq, selfNPUsed c01Vec
-	used, npUsed, npReq                       c01Vec
-	childReq, req                             c01Vec
+	used, npUsed, npReq                      c01Vec
+	childReq, req                            c01Vec
 }
 
 func (m *c01Model) compute() map[string]*c01Agg {
@@ -684,6 +704,9 @@ type c01Detach struct {
 	maxAtOp c01Vec
 	subtree map[string]bool
 	minSum  c01Vec
+	// x's ancestors AFTER a re-parent: if x or a group below it had already drifted (it was an old
+	// ancestor of an earlier detach of the same round) the deficit travels to them
+	newAncestors map[string]bool
 }
 
 // c01PodAt records that a pod was held by a group with a request at some time of a round.
@@ -727,6 +750,7 @@ type c01Ctx struct {
 	detach       []*c01Detach
 	staleMigrate map[string]bool // groups (and their ancestors) touched by a MigratePod whose cached pod object was stale
 	staleAll     bool            // such a MigratePod ran concurrently with re-parents: any group may be on its path
+	tainted      map[string]bool // concurrent unit: groups the deficit of a detach may have reached by the end of the round
 }
 
 const c01SigStaleMigrate = "C01/migrate/pod-updated-since-cached"
@@ -743,6 +767,9 @@ func (e *c01Env) classify(ctx *c01Ctx, group, field string, less bool) (detach, 
 			if d.limited && d.ancestors[group] {
 				detach = true
 			}
+		}
+		if ctx.tainted[group] {
+			detach = true
 		}
 	}
 	return detach, ctx.staleAll || ctx.staleMigrate[group]
@@ -957,7 +984,7 @@ func c01RL(rl v1.ResourceList) string {
 	return s + "}"
 }
 
-// c01SameSummaries compares two sets of summaries figure by figure (absent == 0), including the
+// sameSummaries compares two sets of summaries figure by figure (absent == 0), including the
 // pod sets and their assigned flags. It does not involve the model.
 func (e *c01Env) sameSummaries(kind, where string, a, b map[string]*QuotaInfoSummary, an, bn string) {
 	c := e.c
